@@ -147,7 +147,8 @@ PROPS = {
               'the match line) used as fix must reproduce the node text when C02\'s shape premise holds. Transformed variables (substring) through a real rule. '
               'No verdict: captures with tabs/CR, blank or under-indented continuation lines, match more than 480 bytes into its line, templates outside the scanner\'s verdict set. '
               'evaluations = (match, template) pairs. Non-trivial = distinct pairs with a multi-line capture or a multi-line template.'
-              ' Additions: 1 500 (quick) / 60 000 (thorough) synthetic cases per shard on string fragments over {a,b,z,e-acute,ya,A,B,Z,E-acute,YA,digits,-./ _}: `convert` for all seven cases and every separatedBy subset (letters and digits are conserved for every input; exact reference for inputs made of letters and selected delimiters), `substring` (Python slice) and `replace` (regex with capture groups) on non-ASCII text.'),
+              ' Additions: 1 500 (quick) / 60 000 (thorough) synthetic cases per shard on string fragments over {a,b,z,e-acute,ya,A,B,Z,E-acute,YA,digits,-./ _}: `convert` for all seven cases and every separatedBy subset (letters and digits are conserved for every input; exact reference for inputs made of letters and selected delimiters), `substring` (Python slice) and `replace` (regex with capture groups) on non-ASCII text.'
+              ' The same number of synthetic JavaScript calls per shard (a) put a `replace` transformation on a multi-line `$$$ARGS` whose members sit on differently indented lines (reference: the capture rule with the first member\'s line) and (b) place `wrap(first,\\n second,\\n third)` 20-1 450 bytes into an indented line (long string literal with runs of blanks before it) and rewrite it with single-line templates: the continuation lines must come out unchanged wherever the site is, because capture and match start on the same line.'),
         floor={'quick': 10000, 'thorough': 300000},
         level_text='Tens of thousands of template expansions per quick run compared byte for byte with an independent model; held on the expansions executed.',
         level_note='Trusted: refsem/template.rs (scanner shared with C20, indentation model transcribed from the module documentation of replacer/indent.rs and the property statement), bindings taken from the real match (judged by C02).',
